@@ -98,7 +98,7 @@ class Run:
     def harness_error(self, text):
         self.harness_errors.append(text)
 
-    def finish(self, coverage, assumptions=(), min_conclusive=1, conclusive=None):
+    def finish(self, coverage, assumptions=(), min_conclusive=1, conclusive=None, required=None):
         """Write evidence, print verdict lines, return exit status."""
         acc = self.acc
         known = [k for k in load_known() if k.get("property") == self.pid]
@@ -118,6 +118,8 @@ class Run:
                     self.pid, match.get("text", ""), key, vs[0]["detail"][:300]))
                 continue
             unlisted += 1
+            if unlisted > 12:
+                continue
             os.makedirs(os.path.join(REPLAY_DIR, self.pid), exist_ok=True)
             path = os.path.join(REPLAY_DIR, self.pid,
                                 "%s-%d.json" % (safe_name(key), self.seed))
@@ -150,6 +152,8 @@ class Run:
         os.replace(tmp, os.path.join(EVIDENCE_DIR, self.pid + ".json"))
         for ln in lines:
             print(ln)
+        if unlisted > 12:
+            print("... %d more violation keys not printed (listed in the evidence file)" % (unlisted - 12))
         ncon = conclusive if conclusive is not None else cov["evaluations"]
         print("%s %s seed=%d: evaluations=%d distinct=%d violations=%d known=%d "
               "inconclusive=%d wall=%.1fs" % (
@@ -162,6 +166,11 @@ class Run:
         if self.harness_errors:
             for h in self.harness_errors[:5]:
                 print("HARNESS-ERROR: " + h, file=sys.stderr)
+            return 2
+        missing = [k for k, v in (required or {}).items() if not v]
+        if missing:
+            print("HARNESS-ERROR: nothing conclusive observed for required classes: %s" % missing,
+                  file=sys.stderr)
             return 2
         if ncon < min_conclusive or cov["distinct_nontrivial"] < 2:
             print("HARNESS-ERROR: too few conclusive observations (%d < %d)" % (
